@@ -606,6 +606,45 @@ impl<'i, R: RuleType> ParserState<'i, R> {
             calls: self.call_tracker.current_call_limit.map_or(0, |(c, _)| c),
             limit_reached: self.call_tracker.limit_reached(),
             attempt_pos: self.attempt_pos,
+            queue: self
+                .queue
+                .iter()
+                .map(|token| match token {
+                    QueueableToken::Start {
+                        end_token_index,
+                        input_pos,
+                    } => {
+                        let rule = match self.queue.get(*end_token_index) {
+                            Some(QueueableToken::End { rule, .. }) if *end_token_index > 0 => {
+                                alloc::format!("{rule:?}")
+                            }
+                            _ => String::from("?"),
+                        };
+                        ('S', *input_pos, rule, String::new())
+                    }
+                    QueueableToken::End {
+                        rule,
+                        tag,
+                        input_pos,
+                        ..
+                    } => (
+                        'E',
+                        *input_pos,
+                        alloc::format!("{rule:?}"),
+                        tag.map(String::from).unwrap_or_default(),
+                    ),
+                })
+                .collect(),
+            lookahead: match self.lookahead {
+                Lookahead::None => "n",
+                Lookahead::Positive => "p",
+                Lookahead::Negative => "N",
+            },
+            atomicity: match self.atomicity {
+                Atomicity::NonAtomic => "N",
+                Atomicity::Atomic => "A",
+                Atomicity::CompoundAtomic => "C",
+            },
         }
     }
 
